@@ -167,9 +167,17 @@ def judge(prog: Program, ref: dict[str, Any], ex: Exec, res: Any, fs: dict[str, 
              "stranded-messages"]
     problems.sort(key=lambda p: order.index(p[0]))
     cls = problems[0][0]
+    from sim.oracles import stale_applications
+
+    st = stale_applications(h)
+    stale = [f"{x['handler']}:{x['kind']}:{x['old']}->{x['new']}" for x in st[:1]]
+    if st:
+        x = st[0]
+        problems = problems + [("diagnosis", f"a {x['handler']} message queued before stage {x['stage']} was re-armed changed its "
+                                             f"{x['kind']} {x['old']}->{x['new']} afterwards")]
     msg = f"after {where}: " + " || ".join(f"{c}: {m}" for c, m in problems)
-    return [V("C01", cls, msg, sig=f"C01:{cls}@{site}", site=site, sites=[c["site"] for c in w.crashes],
-              classes=[c for c, _ in problems], recov=_recovery_actions(w, h),
+    return [V("C01", cls, msg, sig=f"C01:{cls}@{site}", site=site, sites=[c["site"] for c in w.crashes], stale=stale,
+              classes=[c for c, _ in problems if c != "diagnosis"], recov=_recovery_actions(w, h),
               site_recov=[f"{c['site']}=>{r}" for c, r in zip(w.crashes, _recovery_actions(w, h))])]
 
 
